@@ -233,11 +233,17 @@ def r3_index(rep, ctx):
         val = res.term(s.value)
         # container: list(self.GetValues(U)), value: scalar.GetValue(U) with the same U
         def unit_of(t, meths):
+            """The unit argument of the outermost accessor call (under list()/tuple() wrappers); the same for every alternative."""
+            units = set()
             for a in alternatives(t):
-                for x in walk(a):
-                    if x[0] == "call" and x[1][0] in ("attr", "field") and (x[1][2] if x[1][0] == "attr" else x[1][1]) in meths and x[2]:
-                        return x[2][0]
-            return None
+                x = a
+                while x[0] == "call" and x[1] in (("name", "list"), ("name", "tuple")) and len(x[2]) == 1:
+                    x = x[2][0]
+                if x[0] == "call" and x[1][0] in ("attr", "field") and (x[1][2] if x[1][0] == "attr" else x[1][1]) in meths and x[2]:
+                    units.add(x[2][0])
+                else:
+                    return None
+            return units.pop() if len(units) == 1 else None
         u1 = unit_of(cont, ("GetValues", "GetAbstractValue"))
         u2 = unit_of(val, ("GetValue", "GetAbstractValue"))
         fresh = all(a[0] == "call" and a[1] in (("name", "list"),) for a in alternatives(cont))
